@@ -280,98 +280,135 @@ def check_equilibrium(rep, prog):
     tmp = temporaries(fn)
     rep.saw_function(m.rel + ':phi_1D')
     check_dispatch_call(rep, m, fn, 'h == 0.5', 'phi_1D_genic', ['xx', 'nu', 'theta0', 'gamma'], {'beta': 'beta'}, before='gamma')
-    try:
-        ge = [n for n in fn.body if isinstance(n, ast.Assign) and ast.unparse(n.targets[0]) == 'gamma']
-        okg = len(ge) == 1 and Translator().tr(ge[0].value).equals(geff_ref)
-        rep.ob('R-ALG', 'phi_1D effective gamma', okg, '`%s`' % (ast.unparse(ge[0]) if ge else '?'), m.rel, ge[0].lineno if ge else fn.lineno,
-               what='effective selection coefficient equals M/V of the integrator (nu and beta dependence)')
-        lam = [n for n in own_nodes(fn) if isinstance(n, ast.Assign) and ast.unparse(n.targets[0]) == 'integrand' and isinstance(n.value, ast.Lambda)]
-        if len(lam) != 2:
-            raise AlgebraError('expected two integrand definitions, found %d' % len(lam))
+    general_h_by_value(rep, prog, m, fn, V, M, x, genic)
 
-        def exponent(l):
-            b = l.value.body
-            if not (isinstance(b, ast.Call) and dotted(b.func) in ('numpy.exp', 'exp') and len(b.args) == 1):
-                raise AlgebraError('integrand is not exp(...)')
-            return Translator({}, name_hook=lambda n: Rat.atom('g') if n == 'gamma' else None).tr(b.args[0])
-        l1, l2 = sorted(lam, key=lambda n: n.lineno)
-        a1 = [a.arg for a in l1.value.args.args]
-        a2 = [a.arg for a in l2.value.args.args]
-        E1 = exponent(l1)            # -Q(xi) - Qadjust
-        Q = (Rat.const(0) - E1 - Rat.atom('Qadjust')).subs({a1[0]: x})
-        twoM = (Rat.const(2) * M).subs(gamma_of_g)
-        dQ = diff(Q, 'x')
-        rep.ob('R-ALG', 'phi_1D exponent', (dQ * V).equals(twoM) and a1 == ['xi'], "Q' = %s; 2M = %s" % (dQ.canon(), twoM.canon()), m.rel, l1.lineno,
-               what="the exponent of the quadrature form satisfies Q' = 2M/V with the integrator's M and V")
-        q0 = Q.subs({'x': Rat.const(0)})
-        rep.ob('R-ALG', 'phi_1D exponent origin', q0.is_zero(), 'Q(0) = %s' % q0.canon(), m.rel, l1.lineno, what='Q(0) = 0 (normalisation V*phi -> theta0 at x -> 0)')
-        E2 = exponent(l2)
-        want2 = Rat.const(0) - (Q.subs({'x': Rat.atom(a2[0])}) - Q.subs({'x': Rat.atom(a2[1])})) if len(a2) == 2 else None
-        rep.ob('R-ALG', 'phi_1D pulled-in integrand', want2 is not None and E2.equals(want2), 'exponent %s' % E2.canon(), m.rel, l2.lineno, what='second integrand is exp(-(Q(xi) - Q(q)))')
-        # quadrature calls
-        quads = [n for n in own_nodes(fn) if isinstance(n, ast.Call) and dotted(n.func) == 'scipy.integrate.quad']
-        sig = []
-        for c in sorted(quads, key=lambda n: n.lineno):
-            kw = {k.arg: ast.unparse(k.value) for k in c.keywords}
-            sig.append((ast.unparse(c.args[0]), ast.unparse(c.args[1]), ast.unparse(c.args[2]), kw.get('args')))
-        okq = sig == [('integrand', '0', '1', None), ('integrand', 'q', '1', None), ('integrand', 'q', '1', '(q,)')]
-        rep.ob('R-TPL', 'phi_1D quadrature bounds', okq, 'quad calls %s' % sig, m.rel, fn.lineno, what='denominator over (0,1); numerators over (x,1) with the matching integrand')
-        loops = [n for n in own_nodes(fn) if isinstance(n, ast.For)]
-        okl = len(loops) == 2 and all([getattr(e_, 'id', None) for e_ in getattr(l.target, 'elts', [])] == ['ii', 'q'] and ast.unparse(l.iter) == 'enumerate(xx)' and any(ast.unparse(s) == 'ints[ii] = val' for s in l.body) for l in loops)
-        rep.ob('R-TPL', 'phi_1D quadrature loop', okl, 'one numerator integral per grid point, stored at its index', m.rel, fn.lineno, what='ints[i] is the integral from x_i')
-        # assembly per sign of gamma
-        asg = [n for n in own_nodes(fn) if isinstance(n, ast.Assign) and ast.unparse(n.targets[0]) == 'phi']
-        neg = [n for n in asg if ('gamma < 0', True) in guard_chain(n, fn)]
-        pos = [n for n in asg if ('gamma < 0', False) in guard_chain(n, fn)]
-        okn = len(neg) == 1 and len(pos) == 1 and len(asg) == 2
-        if okn:
-            v = neg[0].value
-            # exp(P(xx)) * ints / int0
-            Tn = tr_formula(v, {'gamma': 'g'}, tmp)
-            pref = Tn * Rat.atom('int0') / Rat.atom('ints')
-            want = exp_of(Q.subs({}))       # exp(Q(x))
-            okn = pref.equals(want) and ast.unparse(pos[0].value) == 'ints / int0'
-            # second lambda must be defined in the non-negative branch only, before its loop
-            okn = okn and ('gamma < 0', False) in guard_chain(l2, fn) and not [t for t, p in guard_chain(l1, fn)]
-        rep.ob('R-ALG', 'phi_1D assembly', okn, 'gamma<0: exp(Q(x)) * ints/int0; gamma>=0: ints/int0 with the prefactor inside the integrand', m.rel, fn.lineno,
-               what='phi*x(1-x) = exp(Q(x)) int_x^1 exp(-Q) / int_0^1 exp(-Q) in both variants')
-        # Qadjust only for negative gamma; same integrand (hence same shift) in numerator and denominator
-        qa = [n for n in own_nodes(fn) if isinstance(n, ast.Assign) and ast.unparse(n.targets[0]) == 'Qadjust']
-        okqa = len(qa) == 2 and ast.unparse(qa[0].value) == '0'
-        if okqa:
-            gc = guard_chain(qa[1], fn)
-            okqa = len(gc) == 1 and gc[0][1] and 'gamma < 0' in [ast.unparse(v) for v in ast.parse(gc[0][0], mode='eval').body.values] if isinstance(ast.parse(gc[0][0], mode='eval').body, ast.BoolOp) else False
-        rep.ob('R-DOM', 'phi_1D overflow shift', okqa, 'Qadjust is non-zero only under `gamma < 0 and ...`', m.rel, fn.lineno, what='the overflow shift cancels between numerator and denominator and is absent when the prefactor is pulled in')
-        # 1/(x(1-x)), kludge, boundary value, scale
-        sc = [n for n in own_nodes(fn) if isinstance(n, ast.AugAssign) and ast.unparse(n.target) == 'phi[1:-1]' and isinstance(n.op, ast.Mult)]
-        oks = len(sc) == 1 and tr_formula(sc[0].value, {}, tmp).equals(Rat.const(1) / (x * (Rat.const(1) - x)))
-        rets = [n for n in own_nodes(fn) if isinstance(n, ast.Return) and ast.unparse(n.value).startswith('phi ')]
-        scale = tr_formula(rets[-1].value, {}, tmp) / Rat.atom('phi') if rets else None
-        oks = oks and scale is not None and (Vg * scale).equals(Rat.atom('theta0') * x * (Rat.const(1) - x)) and len(rets) == 1
-        rep.ob('R-ALG', 'phi_1D scale', oks, 'interior divided by x(1-x), result times %s' % (scale.canon() if scale is not None else '?'), m.rel, fn.lineno,
-               what='V * scale/(x(1-x)) == theta0 (normalisation of the quadrature form)')
-        bv = {}
-        for n in own_nodes(fn):
-            if isinstance(n, ast.Assign) and ast.unparse(n.targets[0]) == 'phi[-1]':
-                gc = [p for (t, p) in guard_chain(n, fn) if t == 'Qadjust == 0']
-                bv['plain' if gc == [True] else 'shifted' if gc == [False] else '?'] = ast.unparse(n.value)
-        okb = bv.get('plain') == '1.0 / int0' and bv.get('shifted') == 'min(phi[-1], phi[-2])' and len(bv) == 2
-        rep.ob('R-ALG', 'phi_1D x=1 limit', okb, 'boundary values %s' % bv, m.rel, fn.lineno,
-               what='lim_{x->1} exp(Q(x)) int_x^1 exp(-Q) / (x(1-x)) / int0 = 1/int0; monotone fallback when the integrand was shifted')
-        k0 = [ast.unparse(n.value) for n in own_nodes(fn) if isinstance(n, ast.Assign) and ast.unparse(n.targets[0]) == 'phi[0]']
-        rep.ob('R-TPL', 'phi_1D x=0 kludge', k0 == ['phi[1]'], 'phi[0] = %s' % k0, m.rel, fn.lineno, what='the divergent x=0 entry copies its neighbour (documented)')
-        # h = 1/2 join: the genic closed form R solves (R e^{-Q})' = -c e^{-Q}, R(0) = 1, R(1) = 0 with Q at h = 1/2
-        if 'full' in genic and scale is not None:
-            # x(1-x)*phi/scale of the genic form must solve (R e^{-Q})' = -c e^{-Q} with Q at h = 1/2 (same ODE as the quadrature form)
-            Qh = Q.subs({'h': Rat.const(Fraction(1, 2))})
+
+def general_h_by_value(rep, prog, m, fn, V, M, x, genic):
+    """phi_1D for h != 1/2, decided on the values the function computes (rules/c01_phi1d.py): in every world (gamma < 0 plain,
+    gamma < 0 with the overflow shift, gamma >= 0) the interior cells are  theta0 exp(Q(x)) int_x^1 exp(-Q) / int_0^1 exp(-Q) / V(x),
+    Q' = 2M/V, Q(0) = 0, the first cell copies its neighbour, the last cell is the x -> 1 limit."""
+    from rules import c01_phi1d as P
+    from sa import miniexec as mx
+    one = Rat.const(1)
+    th0 = Rat.atom('theta0')
+    line = fn.lineno
+    res = {k: [] for k in ('exponent', 'origin', 'pulled', 'bounds', 'loop', 'assembly', 'scale', 'shift', 'last', 'first')}
+    seen = {k: 0 for k in res}
+    Qs, scales, n_paths = [], [], 0
+    try:
+        for sign, shifted in (('neg', False), ('neg', True), ('nonneg', False)):
+            w = P.World(prog, m, fn, sign, shifted)
+            tag = 'gamma < 0%s' % (', shifted' if shifted else '') if sign == 'neg' else 'gamma >= 0'
+            for outcome, events, _dec in w.run():
+                n_paths += 1
+                f = P.analyse(w, outcome, events)
+                r = f['interior'].rat
+                qs = sorted(a for a in r.atoms() if a.startswith('QUAD'))
+                num = [q for q in qs if q not in (r / Rat.atom(q)).atoms()]
+                den = [q for q in qs if q not in (r * Rat.atom(q)).atoms()]
+                seen['loop'] += 1
+                if len(num) != 1 or len(den) != 1 or len(qs) != 2:
+                    res['loop'].append('%s: interior cell is %s' % (tag, r.canon()[:80]))
+                    continue
+                kn, kd = int(num[0][4:]), int(den[0][4:])
+                inst_n, inst_d = f['inst'].get(kn, []), f['inst'].get(kd, [])
+                E0, a0, b0 = inst_d[0]
+                En, an, bn = inst_n[0]
+                # every evaluation of the same quadrature saw the same integrand and bounds
+                same = all((e_ - E0).is_zero() and (a_ - a0).is_zero() and (b_ - b0).is_zero() for e_, a_, b_ in inst_d) and \
+                    all((e_ - En).is_zero() and (a_ - an).is_zero() and (b_ - bn).is_zero() for e_, a_, b_ in inst_n)
+                seen['bounds'] += 1
+                if not (same and a0.is_zero() and (b0 - one).is_zero() and (an - x).is_zero() and (bn - one).is_zero()):
+                    res['bounds'].append('%s: denominator over (%s, %s), numerator over (%s, %s)' % (tag, a0.canon(), b0.canon(), an.canon(), bn.canon()))
+                if 'x' in E0.atoms():
+                    res['exponent'].append('%s: the denominator integrand depends on the grid point' % tag)
+                    continue
+                E00 = E0.subs({'xi': Rat.const(0)})
+                Q = (Rat.const(0) - (E0 - E00)).subs({'xi': x})
+                Qs.append(Q)
+                dQ = diff(Q, 'x')
+                seen['exponent'] += 1
+                if not (dQ * V).equals(Rat.const(2) * M):
+                    res['exponent'].append("%s: Q' = %s; 2M/V = %s" % (tag, dQ.canon()[:70], (Rat.const(2) * M / V).canon()[:70]))
+                is_shifted = not E00.is_zero()
+                seen['origin'] += 1
+                if is_shifted and sign != 'neg':
+                    res['shift'].append('%s: the integrand is shifted by %s' % (tag, E00.canon()[:50]))
+                seen['shift'] += 1
+                # numerator integrand: exp(-Q(xi) + c(x))
+                cx = En + Q.subs({'x': Rat.atom('xi')})
+                seen['pulled'] += 1
+                if 'xi' in cx.atoms():
+                    res['pulled'].append('%s: numerator integrand exp(%s) is not exp(-Q(xi)) times a factor free of xi' % (tag, En.canon()[:80]))
+                    continue
+                seen['assembly'] += 1
+                tot = f['interior'].expo + cx - E00 - Q
+                if not tot.is_zero():
+                    res['assembly'].append('%s: exponential factors leave exp(%s)' % (tag, tot.canon()[:80]))
+                seen['scale'] += 1
+                rr = r * Rat.atom(den[0]) / Rat.atom(num[0])
+                if not (V * rr).equals(th0):
+                    res['scale'].append('%s: V * phi / (exp(Q) num/den) = %s' % (tag, (V * rr).canon()[:80]))
+                scales.append(f['coef'])
+                # first cell
+                seen['first'] += 1
+                fc = f['first']
+                if not (fc and fc[0] == 'neighbour' and fc[1] is not None and (fc[1].rat - f['interior'].rat).is_zero() and (fc[1].expo - f['interior'].expo).is_zero()):
+                    res['first'].append('%s: first cell is %s' % (tag, 'not set after the interior' if fc is None else ('its neighbour before the interior was complete' if fc[0] == 'neighbour' else fc[1])))
+                # last cell
+                seen['last'] += 1
+                lc = f['last']
+                Kp = th0 * x * (one - x) / V
+                if lc is None:
+                    res['last'].append('%s: last cell is not set' % tag)
+                elif lc[0] == 'min':
+                    if not (is_shifted and sign == 'neg' and lc[1] == [-2, -1] and lc[2]):
+                        res['last'].append('%s: last cell is the minimum of cells %s%s' % (tag, lc[1], '' if is_shifted else ' although the integrand is not shifted'))
+                else:
+                    lv = lc[1]
+                    if not ((lv.rat * Rat.atom(den[0])).equals(Kp) and (lv.expo - E00).is_zero()):
+                        res['last'].append('%s: last cell is %s' % (tag, lv.show()[:100]))
+                if not is_shifted:
+                    pass
+                seen['origin'] += 0
+    except (P.NotRecognised, AlgebraError, mx.Undecidable, KeyError, IndexError) as e:
+        rep.ob('R-ALG', 'phi_1D structure', False, 'quadrature form not recognised: %s' % e, m.rel, line, what="the exponent of the quadrature form satisfies Q' = 2M/V with the integrator's M and V")
+        return
+    if n_paths < 3:
+        rep.ob('R-ALG', 'phi_1D structure', False, 'quadrature form not recognised: %d paths' % n_paths, m.rel, line, what="the exponent of the quadrature form satisfies Q' = 2M/V with the integrator's M and V")
+        return
+
+    def ob(rule, construct, key, holds, what):
+        bad = res[key]
+        rep.ob(rule, construct, not bad and seen[key] >= 3, ('; '.join(bad)[:400]) if bad else '%s in all %d worlds (gamma < 0, gamma < 0 with overflow shift, gamma >= 0)' % (holds, seen[key]), m.rel, line, what=what)
+    ob('R-ALG', 'phi_1D exponent', 'exponent', "Q' V = 2M for the exponent of the denominator integrand", "the exponent of the quadrature form satisfies Q' = 2M/V with the integrator's M and V")
+    ob('R-ALG', 'phi_1D pulled-in integrand', 'pulled', 'numerator integrand is exp(-Q(xi)) times a factor free of xi', 'numerator and denominator integrate the same exp(-Q)')
+    ob('R-TPL', 'phi_1D quadrature bounds', 'bounds', 'denominator over (0,1), numerator over (x,1)', 'denominator over (0,1); numerators over (x,1) with the matching integrand')
+    ob('R-TPL', 'phi_1D quadrature loop', 'loop', 'cell i holds one numerator integral from x_i over one denominator integral', 'ints[i] is the integral from x_i')
+    ob('R-ALG', 'phi_1D assembly', 'assembly', 'prefactor, pulled-in factor and shift combine to exp(Q(x))', 'phi*x(1-x) = exp(Q(x)) int_x^1 exp(-Q) / int_0^1 exp(-Q) in both variants')
+    ob('R-DOM', 'phi_1D overflow shift', 'shift', 'the integrand is shifted only for gamma < 0 and the shift cancels', 'the overflow shift cancels between numerator and denominator and is absent when the prefactor is pulled in')
+    ob('R-ALG', 'phi_1D scale', 'scale', 'V * phi = theta0 exp(Q) num/den', 'V * scale/(x(1-x)) == theta0 (normalisation of the quadrature form)')
+    ob('R-ALG', 'phi_1D x=1 limit', 'last', 'last cell is theta0 x(1-x)/V / int_0^1 exp(-Q) (monotone fallback only when shifted)', 'lim_{x->1} exp(Q(x)) int_x^1 exp(-Q) / (x(1-x)) / int0 = 1/int0; monotone fallback when the integrand was shifted')
+    ob('R-TPL', 'phi_1D x=0 kludge', 'first', 'first cell copies the finished neighbour', 'the divergent x=0 entry copies its neighbour (documented)')
+    # h = 1/2 join: the genic closed form R solves (R e^{-Q})' = -c e^{-Q}, R(0) = 1, R(1) = 0 with Q at h = 1/2
+    if 'full' in genic and Qs and scales and not any(res.values()):
+        try:
+            g = Rat.atom('g')
+            Kr = parse_expr(K)
+            # Q depends on gamma, nu and beta through the effective coefficient g = gamma*nu*K only (implied by Q' V = 2M); written in g
+            Qg = Qs[0].subs({'gamma': g, 'nu': one, 'beta': one})
+            if not Qs[0].subs({'gamma': g / (Rat.atom('nu') * Kr)}).equals(Qg):
+                raise AlgebraError('Q is not a function of gamma*nu*4beta/(beta+1)^2')
+            Qh = Qg.subs({'h': Rat.const(Fraction(1, 2))})
             eQ = exp_of(Rat.const(0) - Qh)
-            Rg = genic['full'] * x * (Rat.const(1) - x) / scale
+            Rg = genic['full'] * x * (one - x) / scales[0]
             c = diff(Rg * eQ, 'x') / eQ
-            okh = 'x' not in c.atoms() and not any(a.startswith('exp(g*x') for a in c.atoms()) and value_at(Rg, {'x': Rat.const(0), 'exp(g*x)': Rat.const(1)}).equals(Rat.const(1))
-            rep.ob('R-ALG', 'phi_1D / phi_1D_genic join at h=1/2', okh, "(R exp(-Q))' exp(Q) = %s" % c.canon(), m.rel, fn.lineno,
+            okh = 'x' not in c.atoms() and not any(a.startswith('exp(g*x') for a in c.atoms()) and value_at(Rg, {'x': Rat.const(0), 'exp(g*x)': one}).equals(one)
+            rep.ob('R-ALG', 'phi_1D / phi_1D_genic join at h=1/2', okh, "(R exp(-Q))' exp(Q) = %s" % c.canon(), m.rel, line,
                    what='the genic closed form is the h = 1/2 instance of the quadrature form (same ODE, same boundary values, same scale)')
-    except (AlgebraError, IndexError, KeyError, AttributeError) as e:
-        rep.ob('R-ALG', 'phi_1D structure', False, 'quadrature form not recognised: %s' % e, m.rel, fn.lineno, what="the exponent of the quadrature form satisfies Q' = 2M/V with the integrator's M and V")
+        except AlgebraError as e:
+            rep.ob('R-ALG', 'phi_1D / phi_1D_genic join at h=1/2', False, 'not recognised: %s' % e, m.rel, line,
+                   what='the genic closed form is the h = 1/2 instance of the quadrature form (same ODE, same boundary values, same scale)')
 
 
 def check_dispatch_call(rep, m, fn, cond, callee, pos, kws, before=None):
